@@ -5,10 +5,12 @@ import (
 	"regexp"
 	"runtime"
 	"runtime/debug"
+	"sort"
 	"strings"
 	"sync"
 	"testing"
 	"testing/synctest"
+	"time"
 )
 
 var (
@@ -63,15 +65,13 @@ func Bubble(fn func()) (berr *BubbleError) {
 	return berr
 }
 
-var bubbleRe = regexp.MustCompile(`(?m)^goroutine (\d+) (?:gp=\S+ m=\S+ )?(?:mp=\S+ )?\[([^\]]*)\]:`)
+var gidRe = regexp.MustCompile(`^goroutine (\d+) `)
 
-// BubbleGoroutines returns the stacks of the goroutines that belong to a synctest bubble,
-// other than the calling goroutine. Call from inside the bubble after synctest.Wait().
-func BubbleGoroutines() []string {
+func snapshotBubble() map[string]string {
 	buf := make([]byte, 1<<20)
 	n := runtime.Stack(buf, true)
 	all := strings.Split(string(buf[:n]), "\n\n")
-	var out []string
+	out := map[string]string{}
 	for i, g := range all {
 		if i == 0 {
 			continue // the caller
@@ -80,10 +80,44 @@ func BubbleGoroutines() []string {
 		if j := strings.IndexByte(g, '\n'); j >= 0 {
 			head = g[:j]
 		}
-		if strings.Contains(head, "synctest bubble") && !strings.Contains(head, "durable") || strings.Contains(head, "synctest bubble") {
+		if !strings.Contains(head, "synctest bubble") {
+			continue
+		}
+		// the bubble's own infrastructure
+		if strings.Contains(g, "internal/synctest.Run(") || strings.Contains(g, "synctest.testingSynctestTest(") || strings.Contains(g, "testing.tRunner(") {
+			continue
+		}
+		// a goroutine on its way out is not a leak
+		if strings.Contains(head, "[runnable") || strings.Contains(head, "[running") {
+			continue
+		}
+		if m := gidRe.FindStringSubmatch(head); m != nil {
+			out[m[1]] = g
+		}
+	}
+
+	return out
+}
+
+// BubbleGoroutines returns the stacks of goroutines (other than the caller and the bubble's
+// own infrastructure) that are parked inside a synctest bubble and stay parked across a virtual
+// second. Call from inside the bubble after everything was closed.
+func BubbleGoroutines() []string {
+	synctest.Wait()
+	first := snapshotBubble()
+	if len(first) == 0 {
+		return nil
+	}
+	time.Sleep(time.Second)
+	synctest.Wait()
+	second := snapshotBubble()
+	var out []string
+	for id, g := range second {
+		if _, ok := first[id]; ok {
 			out = append(out, g)
 		}
 	}
+	sort.Strings(out)
 
 	return out
 }
